@@ -41,6 +41,7 @@ import os
 import re
 import subprocess
 import sys
+import time
 
 from harness import valcodec as vc
 
@@ -87,6 +88,21 @@ def _is_history(inp):
     return isinstance(inp, dict) and inp.get('op') == 'history'
 
 
+def _mutated_in_place(steps):
+    """the last step works on a slot that was checked, then mutated (not rebound) earlier in these steps"""
+    slot = steps[-1].get('slot')
+    if slot is None:
+        return False
+    seen = False
+    for st in steps[:-1]:
+        if st.get('slot') == slot:
+            if st['do'] == 'new':
+                seen = False
+            elif st['do'] == 'mut':
+                seen = True
+    return seen
+
+
 def _viol(ctx, key, what, inp=None, observed=None, expected=None):
     """ctx.violation + remember, per key, the smallest and the first HISTORY that showed it (see settle)"""
     ctx.violation(key, what, inp=inp, observed=observed, expected=expected)
@@ -94,9 +110,12 @@ def _viol(ctx, key, what, inp=None, observed=None, expected=None):
         hist = ctx.__dict__.setdefault('_c19_hist', {})
         rec = {'input': inp, 'what': what, 'observed': observed, 'expected': expected,
                'pos': ctx.__dict__.get('_c19_pos')}
-        old = hist.setdefault(key, {'first': rec, 'smallest': rec})
+        old = hist.setdefault(key, {'first': rec, 'smallest': rec, 'live': None})
         if len(inp['steps']) < len(old['smallest']['input']['steps']):
             old['smallest'] = rec
+        if _mutated_in_place(inp['steps']) and (old['live'] is None
+                                                or len(inp['steps']) < len(old['live']['input']['steps'])):
+            old['live'] = rec            # the failing step looks at an object this history changed in place
 
 
 # =====================================================================================================
@@ -1780,7 +1799,7 @@ def _reproduces(ctx, inp, key):
             'print("KEYS " + json.dumps([v["key"] for v in c.violations]))\n') % (verif, ctx.repo, ctx.repo)
     try:
         p = subprocess.run([sys.executable, '-c', code], input=json.dumps(inp).encode('utf-8'),
-                           stdout=subprocess.PIPE, stderr=subprocess.PIPE, timeout=120)
+                           stdout=subprocess.PIPE, stderr=subprocess.PIPE, timeout=30)
         for ln in p.stdout.decode('utf-8', 'replace').splitlines():
             if ln.startswith('KEYS '):
                 return key in json.loads(ln[5:])
@@ -1793,18 +1812,25 @@ def settle(ctx):
     """ctx.violation keeps the SMALLEST input per key, and a single case is smaller than a history.  A defect that
     needs an earlier operation does not show when that input is replayed in a fresh process.  For every key that
     was seen inside a history: try the exemplar in a fresh process; when it does not reproduce fall back to the
-    smallest history that showed it (steps 0..k), then to the first one, then to that one preceded by the histories
+    smallest history that showed it on an object the history keeps alive (object identity cannot differ in the
+    replay), the smallest history (steps 0..k), the first one, then that one preceded by the histories
     that ran before it in this process (a leak may cross histories; the latest sufficient start is found by
     bisection) - the first candidate that reproduces in a fresh process becomes the replay input."""
     hist = getattr(ctx, '_c19_hist', {})
     log = getattr(ctx, '_c19_log', [])
+    deadline = time.time() + 40                 # fresh processes cost time: only in runs that report something
+
+    def _reproduces(ctx, inp, key, _f=_reproduces):
+        if time.time() > deadline:
+            ctx.stat('settle:out-of-time')
+            return False
+        return _f(ctx, inp, key)
+
     for v in ctx.violations:
         rec = hist.get(v['key'])
-        if rec is None or _reproduces(ctx, v['input'], v['key']):
+        if rec is None or time.time() > deadline or _reproduces(ctx, v['input'], v['key']):
             continue
-        cands = [rec['smallest']]
-        if rec['first'] is not rec['smallest']:
-            cands.append(rec['first'])
+        cands = [c for c in (rec['live'], rec['smallest'], rec['first']) if c is not None]
         pos = rec['first'].get('pos')
 
         def combined(lo):
